@@ -200,6 +200,7 @@ NAMESPACES_PLUGINS: t.Final[cabc.Mapping[str, Plugin]] = {
     "filter": Plugin(
         "http://www.eclipse.org/sirius/diagram/description/filter/1.1.0",
     ),
+    "filtering": Plugin("http://www.polarsys.org/capella/filtering/6.0.0"),
     "libraries": Plugin(
         "http://www.polarsys.org/capella/common/libraries/",
         ("5.0.0", "7.0.0"),
